@@ -284,8 +284,11 @@ def check_timer(sched, start, days):
     if so.reliability != "noFaultDetected":
         return [("timer:configuration-rejected", repr(so.reliability))], 0
     dt = sched["dtype"]
-    VC.settle()
     n = 0
+    try:
+        VC.settle(max_iter=20000)
+    except RuntimeError:
+        return [("timer:live-lock", "right after start-up (00:37) the interpreter re-arms itself for the current instant over and over: time cannot advance; schedule %r" % (sched,))], n
     end = t0 + days * 86400
     t = t0
     while t < end:
